@@ -455,6 +455,13 @@ def case_step(case):
             fresh = build(cfg, new)
         if ok:
             derived_checks(r, m, cfg, fresh, extra)
+            # equality is decided by the values: a model whose parameters were changed differs from the
+            # model before the change (judged on the reference states, not through the library's __eq__)
+            sa = json.loads(canon(cfg, {k: v for k, v in st.items() if k != "bounds"}))
+            sb = json.loads(canon(cfg, {k: v for k, v in new.items() if k != "bounds"}))
+            if sa != sb:
+                prev = build(cfg, st)
+                r.true("model after a value-changing assignment != model before the assignment", bool(m != prev) and not bool(m == prev), info=repr(m) + " vs " + repr(prev), **extra)
             if "_int_target" in new and not (cfg["cls"] == "Matern" and new["opts"]["nu"] > 20):
                 # (Matern nu > 20 evaluates the documented Gaussian limit: judged by C03, not here)
                 from scipy.integrate import quad
